@@ -74,17 +74,6 @@ Init ==
   /\ last = [type |-> FIRST, reward |-> 0, a |-> [k1 \in 1..NA |-> 0], bad |-> {}, pl |-> FALSE]
 
 (* ---------- the step ---------- *)
-\* every admissible outcome of the deliveries: set of [q |-> queue, n |-> reward]
-RECURSIVE QueueSuccs(_, _, _)
-QueueSuccs(q, goals, sh) ==
-  IF goals = <<>> THEN { [q |-> q, n |-> 0] }
-  ELSE LET sid == Cell(sh, Head(goals)) IN
-       IF sid # 0 /\ (sid - 1) \in Range(q)
-       THEN UNION { { [q |-> r.q, n |-> r.n + 1] :
-                        r \in QueueSuccs([q EXCEPT ![IndexIn(q, sid - 1)] = new], Tail(goals), sh) } :
-                    new \in ShelfIds \ Range(q) }
-       ELSE QueueSuccs(q, Tail(goals), sh)
-
 JointActions == [1..NA -> Actions]
 Step(a) ==
   LET w == Moved(s, a) IN
